@@ -178,6 +178,9 @@ form('tpl-receiver-trim-then-concat-tpl-arg', { ops: ['tpl', 'trim', 'concat'] }
 form('tpl-literal-dollar-before-brace', { ops: ['+', 'tpl'] }, F => `${F.f()} + \`cost: \${'$'}{\${${F.s()}}}\``)
 form('tpl-dollar-before-literal-brace', { ops: ['+', 'tpl'] }, F => `${F.f()} + \`a$\${'{'}\${${F.s()}}}\``)
 form('tpl-literal-backtick-and-backslash', { ops: ['+', 'tpl'] }, F => `${F.f()} + \`q\${'\\\\'}\${'\`'}\${${F.s()}}\${'\\n$'}{z}\``)
+// a bare comma sequence as the computed key of a += target (the key is the LAST expression)
+form('addassign-seq-key', { ops: ['+='] }, F => `w.o${F.id()}[${F.f()}, w.k${F.id()}] += ${F.s()}`)
+form('addassign-paren-target-seq-key', { ops: ['+='] }, F => `(w.o${F.id()}[${F.f()}, w.k${F.id()}]) += ${F.f()}`)
 form('tpl-bare-seq-subst', { ops: ['tpl'] }, F => `\`\${${F.f()}, ${F.s()}}-\${${F.f()}}\``)
 form('tpl-nosubst', { ops: [], instr: false }, F => `\`plain${F.id()}\``)
 form('tpl-alias', { ops: ['tpl'] }, F => { const a = F.loc(); return `\`\${${a}}-\${(${a} = ${F.s()}, ${F.f()})}-\${${a}}\`` })
@@ -425,6 +428,11 @@ place('fn-default-param', { kfShape: 'D7' }, E => `function fn(x = ${E}) { retur
 // a later default calls, in the middle of its own operation, a function created by an earlier default whose own default is instrumented
 place('fn-later-default-calls-fn-of-earlier-default', { kfShape: 'D7' }, E => `function h(a1 = w.u1 || function (v, q = w.s7 + w.f8()) { return w.id1(v, q) }, a2 = w.f9() + a1(${E})) { return a2 } w.out(h());`)
 place('fn-later-default-calls-arrow-of-earlier-default', { kfShape: 'D7' }, E => `function h(a1 = [(v, q) => w.id1(v, q), function (v, q = \`\${w.s7}:\${w.f8()}\`) { return w.id2(v, q) }], a2 = w.f9() + a1[1](${E}) + a1[0](w.s3)) { return a2 } w.out(h());`)
+// an earlier default holds a class whose field initialiser is instrumented, a plain default in between, a later default that instantiates it mid-operation
+place('fn-later-default-instantiates-class-of-earlier-default', { kfShape: 'D7' }, E => `function h(B = class { id = w.s7 + w.f8() }, st = w.f6(), inst = w.f9() + new B().id + (${E})) { return inst + st } w.out(h());`)
+place('obj-setter-default-param', { kfShape: 'D7' }, E => `const ob = { set p(v = ${E}) { w.out(v) } }; w.out(w.f5() + (ob.p = undefined, w.s6));`)
+place('class-setter-default-param', { kfShape: 'D7' }, E => `class K { set p(v = ${E}) { w.out(v) } } const k = new K(); w.out(w.f5() + (k.p = undefined, w.s6));`)
+place('constructor-default-param', { kfShape: 'D7' }, E => `class K { constructor(v = ${E}) { this.v = v } } w.out(w.f5() + new K().v);`)
 place('method-default-param', { kfShape: 'D7' }, E => `const ob = { m(x = ${E}) { return x } }; w.out(ob.m());`)
 place('arrow-default-param', { thisOk: true, excl: 'arrow-default' }, E => `const af = (x = ${E}) => x; w.out(af());`)
 place('arrow-expr-body', { thisOk: true }, E => `const af = () => ${E}; w.out(af());`)
